@@ -224,7 +224,11 @@ class Check:
                     if ok:
                         self.keep(v["replay"], v.get("message", ""))
                     else:
-                        self.notes.append("job %d: failure did not reproduce 3/3 from %s; not reported" % (i, v["replay"]))
+                        jr = self.job_replay_file(i, job, 1, text)
+                        if jr:
+                            self.keep(jr[0], "oracle disagreement that needs the earlier cases of the same process (whole job as replay): " + jr[1])
+                        else:
+                            self.notes.append("job %d: failure did not reproduce 3/3 from %s nor by re-running the job; not reported" % (i, v["replay"]))
                 continue
             if rc == CRASH_RC or rc < 0 or rc == 1:
                 # sanitizer abort / crash: the engine saves the case it is about to run
@@ -265,11 +269,16 @@ class Check:
         if not cmd or not job.get("target") or "fuzz" in job.get("target", ""):
             return None
         rc2, text2, _ = run(cmd, env=env, timeout=job.get("timeout", {}).get(self.tier, 3600))
-        if not (rc2 == CRASH_RC or (rc2 < 0 and rc2 != -9)):
+        if rc == 1:
+            # an oracle disagreement whose shrunk case passes in a fresh process (the library carries something over from
+            # earlier cases of the process): deterministic if the job fails again
+            if rc2 != 1:
+                return None
+        elif not (rc2 == CRASH_RC or (rc2 < 0 and rc2 != -9)):
             return None
         exe = self.exe(job["target"])
         args = ["{exe}" if a == exe else a.replace(self.rundir, "{rundir}") for a in cmd]
-        tail = [l for l in text2.splitlines() if "ERROR" in l or "runtime error" in l or "SUMMARY" in l or "terminate called" in l]
+        tail = [l for l in text2.splitlines() if "ERROR" in l or "runtime error" in l or "SUMMARY" in l or "terminate called" in l or (rc == 1 and "] at op " in l)]
         body = "# engine=JOB prop=%s\n# the whole job is the reproduction: it ended abnormally twice (rc=%d, rc=%d) and the case in progress does not fail on its own\n# %s\n%s\n" % (
             self.prop, rc, rc2, (tail[0][:200] if tail else ""), json.dumps(dict(target=job["target"], args=args, env=env or {})))
         path = os.path.join(self.rundir, "job_fail.%d.txt" % i)
